@@ -99,6 +99,19 @@ L(t, at, damp, kind)    == [k |-> "L", t |-> t, at |-> at, damp |-> damp, kind |
 O(j, of, id)            == [k |-> "O", j |-> j, of |-> of, id |-> id]
 U(j, of, oid)           == [k |-> "U", j |-> j, of |-> of, oid |-> oid]
 OR(o, f)                == [k |-> "OR", o |-> o, f |-> f]
+\* consumers of a finalised posterior (losses, sampling):
+\*  X(j)          observation model of the j-th output time's datum (marginal.to_derivative(i, std_j))
+\*  NX(base, ext) marginal `base` additionally conditioned on the external data with indices ext (sorted)
+\*  OX / UX       observed marginal / pending update of an external datum
+\*  S(of, key)    a sample of term `of` drawn with PRNG key `key`;  CS(c, s) conditional c applied to sample s
+XObs(j, idx)            == [k |-> "X", j |-> j, idx |-> idx]
+NX(base, ext)           == [k |-> "NX", base |-> base, ext |-> ext]
+OX(x, of, id)           == [k |-> "OX", x |-> x, of |-> of, id |-> id]
+UX(x, of)               == [k |-> "UX", x |-> x, of |-> of]
+SampleOf(of, key)       == [k |-> "S", of |-> of, key |-> key]
+CS(c, s)                == [k |-> "CS", c |-> c, s |-> s]
+BaseOf(x) == IF x.k = "NX" THEN x.base ELSE x
+ExtOf(x)  == IF x.k = "NX" THEN x.ext ELSE <<>>
 Init0                   == N(T0, Unit, <<>>)
 
 IsFiltering(x) == x.k = "N" /\ x.t = End(x.segs)
@@ -130,6 +143,9 @@ Marg(c, x) ==
          IF x.t = c.b /\ Extends(c, x.s0, x.segs) THEN [x EXCEPT !.t = c.a]
          ELSE Err("marginalise: backward conditional applied to a marginal it does not belong to")
     [] c.k = "Id" -> x
+    [] c.k = "B" /\ x.k = "NX" ->
+         IF x.base.k = "N" /\ x.base.t = c.b /\ Extends(c, x.base.s0, x.base.segs) THEN NX([x.base EXCEPT !.t = c.a], x.ext)
+         ELSE Err("marginalise: backward conditional applied to a marginal it does not belong to")
     [] c.k = "L" /\ x.k \in {"N", "M"} ->
          IF c.t = TimeOf(x) THEN O(c, x, 0) ELSE Err("marginalise: observation model at the wrong time")
     [] OTHER -> Err("marginalise: undefined")
@@ -144,6 +160,7 @@ Revert(c, x, oid) ==
          IF IsFiltering(x) /\ c.t = x.t /\ (Len(x.segs) = 0 \/ x.segs[Len(x.segs)].obs = NoObs)
          THEN << O(c, x, oid), U(c, x, oid) >>
          ELSE << Err("revert: observation model applied at the wrong time or twice"), Err("revert") >>
+    [] c.k = "X" /\ x.k \in {"N", "NX"} -> << OX(c, x, oid), UX(c, x) >>
     [] c.k = "L" /\ x.k = "M" ->
          IF c.t = TimeOf(x) THEN << O(c, x, oid), U(c, x, oid) >>
          ELSE << Err("revert: observation model at the wrong time"), Err("revert") >>
@@ -151,7 +168,8 @@ Revert(c, x, oid) ==
 
 \* condition on the (zero) datum
 ApplyData(c, isZero) ==
-  IF c.k = "U" /\ isZero /\ c.of.k = "M"
+  IF c.k = "UX" THEN NX(BaseOf(c.of), TagInsert(ExtOf(c.of), c.x.j))
+  ELSE IF c.k = "U" /\ isZero /\ c.of.k = "M"
   THEN [k |-> "PM", j |-> c.j, of |-> c.of, oid |-> c.oid]      \* the mean-only extrapolation conditioned on the datum
   ELSE IF c.k = "U" /\ isZero
   THEN LET x == c.of
@@ -164,6 +182,7 @@ ApplyData(c, isZero) ==
 \* apply a conditional to the mean of a term
 ApplyMean(c, x) ==
   IF c.k = "T" /\ x.k = "N" /\ IsFiltering(x) THEN M(x, c.h, c.tag)
+  ELSE IF c.k \in {"B", "T", "Id"} /\ x.k = "S" THEN CS(c, x)
   ELSE Err("apply: undefined")
 
 Merge(outer, inner) ==
